@@ -20,10 +20,16 @@ def obligations(tier, seed):
         obs.append(Ob("num", "mint::" + h, **kw))
     ms = QUICK_M if tier == "quick" else ALL_M
     for m in ms:
+        if tier == "quick" and m == 998244353:
+            # the 30-bit prime: new/+/- here; * and inv take ~15 min each under CBMC (thorough tier); * for EVERY modulus is
+            # decided by the SMT obligations with a symbolic modulus
+            add("c06_new_m%d" % m, covers=2, desc="new(v) = v mod M in [0,M) for every i64 v", bounds="M=%d, all v" % m, timeout=1800)
+            add("c06_addsub_m%d" % m, covers=3, desc="+,-,neg", bounds="M=%d, all pairs" % m)
+            continue
         add("c06_new_m%d" % m, covers=2, desc="new(v) = v mod M in [0,M) for every i64 v", bounds="M=%d, all v" % m)
         add("c06_addsub_m%d" % m, covers=3, desc="+,-,neg and assigning forms give the canonical representative; == is representative equality", bounds="M=%d, all pairs" % m)
         add("c06_mul_m%d" % m, covers=1, desc="* and *= give the representative of the integer product", bounds="M=%d, all pairs" % m)
-    inv_m = [2, 7, 12, 13, 998244353] if tier == "quick" else [2, 3, 4, 5, 6, 7, 8, 9, 10, 11, 12, 13, 16, 61, 251, 256, 65537, 998244353, 1000000007, 2147483646, 2147483647]
+    inv_m = [2, 7, 12, 13] if tier == "quick" else [2, 3, 4, 5, 6, 7, 8, 9, 10, 11, 12, 13, 16, 61, 251, 256, 65537, 998244353, 1000000007, 2147483646, 2147483647]
     for m in inv_m:
         add("c06_inv_m%d" % m, covers=2, desc="y*inv(y)=1 and (x/y)*y=x for every unit y (windows at large M)", bounds="M=%d" % m)
     pow_m = [2, 7, 12] if tier == "quick" else [2, 3, 4, 7, 9, 12, 13, 998244353, 2147483647]
